@@ -102,14 +102,21 @@ def register_side_iterator_form(c, facts, R, ac, emit_names):
 def r1_ref_close(c, facts):
     R = c.rule('C03.R1', 'REF-CLOSE: emit side and register side use one inline predicate and one key function')
     sites = aggr_sites(facts, 'oal_openapi', 'ReferenceOr', 'Reference')
-    allowed = {'oal_openapi::Builder::reference_schema', 'oal_openapi::oas::into_box_ref'}
+    # the emit side: `reference_schema`, or - when it was merged into its caller - the one function of the Builder that
+    # both builds a $ref and asks maybe_inline
+    emit = facts.fn('oal_openapi::Builder::reference_schema')
+    if emit is None:
+        cand = sorted({fn.id for fn, b, s in sites if fn.qname.startswith('oal_openapi::Builder::') and '{closure' not in fn.qname and P.call_blocks(fn, 'Builder::maybe_inline')})
+        if len(cand) == 1:
+            emit = facts.fns[cand[0]]
+    allowed = {emit.qname if emit is not None else 'oal_openapi::Builder::reference_schema', 'oal_openapi::oas::into_box_ref'}
     c.floor(R, '$ref constructor sites', len(sites), 2)
     for fn, b, s in sites:
         if fn.qname in allowed:
             c.ok(R, {'$ref constructed in': fn.qname})
         else:
             c.bad(R, 'ref-constructed-in:%s' % fn.qname, '%s constructs a $ref outside reference_schema: it is not covered by the registration rule' % fn.qname)
-    rs = c.anchor(R, 'oal_openapi::Builder::reference_schema')
+    rs = facts.normalised(emit) if emit is not None else c.anchor(R, 'oal_openapi::Builder::reference_schema')
     mi = P.call_blocks(rs, 'Builder::maybe_inline')
     if not mi:
         c.bad(R, 'reference_schema:no-maybe_inline', 'reference_schema no longer decides with maybe_inline')
